@@ -113,6 +113,7 @@ package pub
 //@ [C10] ensures accepted_200: result0 && result1 == nil && libWrote == 1 && b.enableFederatedProtocol && !typeUnknown && !lacksId && !lastBlocked && !reqMissing ==> status == 200
 //@ [C10] ensures library_status: libWrote == 1 ==> status == 405 || status == 400 || status == 403 || status == 200
 //@ modifies gExists, gOwnsValue, gNCol
+//@ modifies nSent, gResp, gReplied, gActor, gMe
 
 //@ func (*pub.baseActor).PostInbox
 //@ params b, c, w, r
@@ -130,6 +131,7 @@ package pub
 //@ [C10] ensures one_status: result0 && result1 == nil ==> wrote == 1
 //@ modifies $db, authed, cleared, typeUnknown, lacksId, lastBlocked, reqMissing, wrote, libWrote, status, sentHdr, bodyWrites, hdr, bufstr, H:net/url.URL.Host, H:net/url.URL.Scheme, A:Int, A:Iface, nDeliver, nNewID, actIdTick, leak, storedFollow, gMe, gObjWit, gDoc, gActWit
 //@ modifies gExists, gOwnsValue, gNCol
+//@ modifies nSent, gResp, gReplied, gActor, gMe
 
 //@ func (*pub.baseActor).PostOutboxScheme
 //@ params b, c, w, r, scheme
@@ -366,6 +368,7 @@ package pub
 //@ [C11] requires has_actor: activity.GetActivityStreamsActor() != nil
 //@ [C11] ensures id_kept: activity.GetJSONLDId() == old(activity.GetJSONLDId())
 //@ [C11] at call (streams.TypeResolver).Resolve#1: assume!post id_stable: activity.GetJSONLDId() == old(activity.GetJSONLDId())
+//@ modifies nSent, gResp, gReplied, gActor, gMe
 
 //@ func (*pub.sideEffectActor).InboxForwarding
 //@ params a, c, inboxIRI, activity
@@ -503,6 +506,7 @@ package pub
 //@ params a, c, inboxIRI, val, maxDepth, currDepth
 //@ modifies nOwnsYes
 //@ [C17] at call pub.Database.Owns#*: ghost nOwnsYes = nOwnsYes + ($res0 && $res1 == nil ? 1 : 0)
+//@ [C17] at call (*pub.sideEffectActor).hasInboxForwardingValues#1: assert each_level_consumes_one_unit_of_depth: $arg5 == currDepth + 1 && $arg4 == maxDepth && $arg2 == inboxIRI
 //@ [C17] ensures depth_limit_respected: maxDepth > 0 && currDepth >= maxDepth ==> !result0 && result1 == nil && eff == old(eff) && appCalls == old(appCalls)
 //@ [C17] ensures true_only_after_the_database_owned_a_value: nOwnsYes >= old(nOwnsYes) && (result0 ==> result1 == nil && nOwnsYes > old(nOwnsYes)) && (!result0 ==> nOwnsYes == old(nOwnsYes))
 //@ [C17] ensures only_reads: nCreate == old(nCreate) && nFilter == old(nFilter) && nUpdate == old(nUpdate) && lastCreated == old(lastCreated)
@@ -583,6 +587,10 @@ package pub
 // ---------------------------------------------------------------- federating_wrapped_callbacks.go
 //@ func (pub.FederatingWrappedCallbacks).create
 //@ params w, c, a
+//@ let N = (a.GetActivityStreamsObject() == nil ? 0 : a.GetActivityStreamsObject().Len())
+//@ [C04] ensures every_object_stored_once: result == nil ==> nCreate == old(nCreate) + N
+//@ loop 1 [C04] invariant stored_so_far: nCreate == old(nCreate) + (iter == nil ? N : ipos(iter)) && (iter != nil ==> ilen(iter) == N) && op == a.GetActivityStreamsObject()
+//@ [C04] at call dyn.Create#1: assert application_callback_runs_after_the_default_effect: nCreate == old(nCreate) + N
 //@ [C11] requires w.db != nil && w.inboxIRI != nil && a != nil && w.newTransport != nil && w.addNewIds != nil && w.deliver != nil
 //@ [C09] requires unlocked: held == emp
 //@ [C09] ensures unlocked: held == emp
@@ -597,6 +605,10 @@ package pub
 
 //@ func (pub.FederatingWrappedCallbacks).create$1
 //@ params iter
+//@ [C04] ensures stores_one_value: nCreate <= old(nCreate) + 1 && (result == nil ==> nCreate == old(nCreate) + 1)
+//@ [C04] at call pub.Database.Create#1: assert stores_the_embedded_value_or_the_fetched_one: iter.GetType() != nil ==> $arg2 == iter.GetType()
+//@ [C04] at call pub.Transport.Dereference#1: assert fetches_the_object_given_by_iri: $arg2 == iter.GetIRI() && iter.GetType() == nil
+//@ [C04] ensures nothing_else_changed: nUpdate == old(nUpdate) && nDelete == old(nDelete)
 //@ [C11] requires w.db != nil && w.inboxIRI != nil && iter != nil && w.newTransport != nil
 //@ [C09] requires unlocked: held == emp
 //@ [C09] ensures unlocked: held == emp
@@ -607,6 +619,10 @@ package pub
 
 //@ func (pub.FederatingWrappedCallbacks).update
 //@ params w, c, a
+//@ let N = (a.GetActivityStreamsObject() == nil ? 0 : a.GetActivityStreamsObject().Len())
+//@ [C04] ensures exactly_the_named_objects_stored: result == nil ==> nUpdate == old(nUpdate) + N
+//@ loop 1 [C04] invariant stored_so_far: nUpdate == old(nUpdate) + (iter == nil ? N : ipos(iter)) && (iter != nil ==> ilen(iter) == N) && op == a.GetActivityStreamsObject()
+//@ [C04] at call dyn.Update#1: assert application_callback_runs_after_the_default_effect: nUpdate == old(nUpdate) + N
 //@ [C11] requires w.db != nil && w.inboxIRI != nil && a != nil && w.newTransport != nil && w.addNewIds != nil && w.deliver != nil
 //@ [C09] requires unlocked: held == emp
 //@ [C09] ensures unlocked: held == emp
@@ -623,6 +639,9 @@ package pub
 
 //@ func (pub.FederatingWrappedCallbacks).update$1
 //@ params iter
+//@ [C04] ensures stores_one_value: nUpdate <= old(nUpdate) + 1 && (result == nil ==> nUpdate == old(nUpdate) + 1)
+//@ [C04] at call pub.Database.Update#1: assert stores_the_named_object: $arg2 == iter.GetType()
+//@ [C04] ensures nothing_else_changed: nCreate == old(nCreate) && nDelete == old(nDelete)
 //@ [C11] requires w.db != nil && iter != nil
 //@ [C09] requires unlocked: held == emp
 //@ [C09] ensures unlocked: held == emp
@@ -633,6 +652,10 @@ package pub
 
 //@ func (pub.FederatingWrappedCallbacks).deleteFn
 //@ params w, c, a
+//@ let N = (a.GetActivityStreamsObject() == nil ? 0 : a.GetActivityStreamsObject().Len())
+//@ [C04] ensures exactly_the_named_objects_removed: result == nil ==> nDelete == old(nDelete) + N
+//@ loop 1 [C04] invariant removed_so_far: nDelete == old(nDelete) + (iter == nil ? N : ipos(iter)) && (iter != nil ==> ilen(iter) == N) && op == a.GetActivityStreamsObject()
+//@ [C04] at call dyn.Delete#1: assert application_callback_runs_after_the_default_effect: nDelete == old(nDelete) + N
 //@ [C11] requires w.db != nil && w.inboxIRI != nil && a != nil && w.newTransport != nil && w.addNewIds != nil && w.deliver != nil
 //@ [C09] requires unlocked: held == emp
 //@ [C09] ensures unlocked: held == emp
@@ -649,6 +672,9 @@ package pub
 
 //@ func (pub.FederatingWrappedCallbacks).deleteFn$1
 //@ params iter
+//@ [C04] ensures removes_one_value: nDelete <= old(nDelete) + 1 && (result == nil ==> nDelete == old(nDelete) + 1)
+//@ [C04] at call pub.Database.Delete#1: assert removes_the_named_object: $arg2 == elemId(iter)
+//@ [C04] ensures nothing_else_changed: nCreate == old(nCreate) && nUpdate == old(nUpdate)
 //@ [C11] requires w.db != nil && iter != nil
 //@ [C09] requires unlocked: held == emp
 //@ [C09] ensures unlocked: held == emp
@@ -659,6 +685,29 @@ package pub
 
 //@ func (pub.FederatingWrappedCallbacks).follow
 //@ params w, c, a
+//@ modifies nSent, gResp, gReplied, gActor, gMe, gV0, nUpdate
+//@ [C04] at call pub.Database.ActorForInbox#1: ghost gActor = $res0
+//@ [C04] at call pub.Database.ActorForInbox#1: ghost gReplied = false
+//@ [C04] at call (*net/url.URL).String#2: ghost gMe = ipos(iter)
+//@ [C04] at call streams.NewActivityStreamsActorProperty#1: ghost gReplied = true
+//@ [C04] at call streams.NewActivityStreamsActorProperty#1: assert replies_only_to_a_follow_naming_this_inboxs_actor: w.OnFollow != pub.OnFollowDoNothing && 0 <= gMe && gMe < a.GetActivityStreamsObject().Len() && str(elemId(a.GetActivityStreamsObject().At(gMe))) == str(actorIRI) && actorIRI == gActor
+//@ [C04] at call pub.Database.Followers#1: ghost gV0 = ASHP
+//@ [C04] at call dyn.deliver#1: ghost nSent = nSent + 1
+//@ [C04] at call dyn.deliver#1: ghost gResp = $arg3
+//@ [C04] ensures at_most_one_response: nSent <= old(nSent) + 1
+//@ [C04] ensures otherwise_sends_and_changes_nothing: result == nil && !gReplied ==> nSent == old(nSent) && nUpdate == old(nUpdate)
+//@ [C04] ensures do_nothing_means_nothing: w.OnFollow == pub.OnFollowDoNothing ==> nSent == old(nSent) && nUpdate == old(nUpdate)
+//@ [C04] ensures a_follow_naming_the_actor_is_answered: result == nil && gReplied ==> nSent == old(nSent) + 1
+//@ [C04] ensures not_answered_only_if_no_object_names_the_actor: result == nil && !gReplied && w.OnFollow != pub.OnFollowDoNothing ==> (forall j Int :: {a.GetActivityStreamsObject().At(j)} 0 <= j && j < a.GetActivityStreamsObject().Len() ==> str(elemId(a.GetActivityStreamsObject().At(j))) != str(gActor))
+//@ loop 1 [C04] invariant no_earlier_object_names_the_actor: op == a.GetActivityStreamsObject() && actorIRI == gActor && !gReplied && nSent == old(nSent) && nUpdate == old(nUpdate) && (iter != nil ==> iter == op.At(ipos(iter)) && ilen(iter) == op.Len()) && (forall j Int :: {op.At(j)} 0 <= j && j < (iter == nil ? op.Len() : ipos(iter)) ==> str(elemId(op.At(j))) != str(actorIRI))
+//@ loop 2 [C04] invariant response_addressed_to_the_following_actors: gReplied && nSent == old(nSent) && nUpdate == old(nUpdate) && props[response]["ActivityStreamsTo"] == to && to != followActors && followActors == a.GetActivityStreamsActor() && (iter != nil ==> iter == followActors.At(ipos(iter)) && ilen(iter) == followActors.Len()) && len(recipients) == (iter == nil ? followActors.Len() : ipos(iter)) && to.Len() == len(recipients) && (forall j Int :: {recipients[j]} 0 <= j && j < len(recipients) ==> recipients[j] == elemId(followActors.At(j)) && to.At(j).IsIRI() && to.At(j).GetIRI() == recipients[j])
+//@ loop 2 [C04] invariant response_shape: props[response]["ActivityStreamsActor"] != nil && props[response]["ActivityStreamsActor"].Len() == 1 && props[response]["ActivityStreamsActor"].At(0).IsIRI() && props[response]["ActivityStreamsActor"].At(0).GetIRI() == actorIRI && props[response]["ActivityStreamsObject"] != nil && props[response]["ActivityStreamsObject"].Len() == 1 && props[response]["ActivityStreamsObject"].At(0).GetType() == a && response.GetTypeName() == (w.OnFollow == pub.OnFollowAutomaticallyAccept ? "Accept" : "Reject") && (w.OnFollow == pub.OnFollowAutomaticallyAccept || w.OnFollow == pub.OnFollowAutomaticallyReject)
+//@ loop 3 [C04] invariant followers_gain_the_following_actors: gReplied && nSent == old(nSent) && nUpdate == old(nUpdate) && items != nil && props[followers]["ActivityStreamsItems"] == items && items.Len() == lenv(gV0, items) + $ri + 1 && $ri + 1 <= len(recipients) && (forall k Int :: {items.At(k)} 0 <= k && k <= $ri ==> items.At(k).IsIRI() && items.At(k).GetIRI() == recipients[$ri - k]) && (forall k Int :: {items.At(k)} $ri + 1 <= k && k < items.Len() ==> items.At(k) == atv(gV0, items, k - $ri - 1))
+//@ [C04] at call pub.Database.Update#1: assert every_following_actor_added_to_followers: $arg2 == followers && props[followers]["ActivityStreamsItems"] != nil && props[followers]["ActivityStreamsItems"].Len() == lenv(gV0, props[followers]["ActivityStreamsItems"]) + len(recipients) && (forall k Int :: {props[followers]["ActivityStreamsItems"].At(k)} 0 <= k && k < len(recipients) ==> props[followers]["ActivityStreamsItems"].At(k).IsIRI() && props[followers]["ActivityStreamsItems"].At(k).GetIRI() == recipients[len(recipients) - 1 - k]) && (forall k Int :: {props[followers]["ActivityStreamsItems"].At(k)} len(recipients) <= k && k < props[followers]["ActivityStreamsItems"].Len() ==> props[followers]["ActivityStreamsItems"].At(k) == atv(gV0, props[followers]["ActivityStreamsItems"], k - len(recipients)))
+//@ [C04] at call pub.Database.Followers#1: assert followers_of_this_inboxs_actor: $arg2 == actorIRI && w.OnFollow == pub.OnFollowAutomaticallyAccept
+//@ [C04] at call dyn.addNewIds#1: assert the_response_is_identified_before_delivery: $arg2 == response && nSent == old(nSent)
+//@ [C04] at call dyn.deliver#1: assert delivers_the_freshly_identified_response: $arg3 == response && $arg2 == outboxIRI
+//@ [C04] at call dyn.deliver#1: assert followers_changed_once_on_accept_never_on_reject: nUpdate == old(nUpdate) + (w.OnFollow == pub.OnFollowAutomaticallyAccept ? 1 : 0)
 //@ [C11] requires w.db != nil && w.inboxIRI != nil && a != nil && w.newTransport != nil && w.addNewIds != nil && w.deliver != nil
 //@ [C09] requires unlocked: held == emp
 //@ [C09] ensures unlocked: held == emp
@@ -1032,11 +1081,11 @@ package pub
 //@ func pub.add
 //@ params c, op, target, db
 //@ modifies gV0, gOwns
-//@ loop 1 [C16] invariant ids_collected: len(opIds) == (iter == nil ? op.Len() : ipos(iter)) && (iter != nil ==> ilen(iter) == op.Len() && iparent(iter) == op && iter == op.At(ipos(iter))) && (forall j Int :: {opIds[j]} 0 <= j && j < len(opIds) ==> opIds[j] == elemId(op.At(j)))
-//@ [C16] at call dyn.loopFn#1: assert appends_exactly_the_object_ids: len(opIds) == lenv(old(ASHP), op) && (forall j Int :: {opIds[j]} 0 <= j && j < len(opIds) ==> opIds[j] == old(elemId(atv(ASHP, op, j))))
-//@ loop 2 [C16] invariant own_backing_array: arrof(targetIds) != arrof(opIds)
-//@ loop 2 [C16] invariant ids_fixed: len(opIds) == lenv(old(ASHP), op) && (forall j Int :: {opIds[j]} 0 <= j && j < len(opIds) ==> opIds[j] == old(elemId(atv(ASHP, op, j))))
-//@ loop 3 [C16] invariant ids_fixed: len(opIds) == lenv(old(ASHP), op) && (forall j Int :: {opIds[j]} 0 <= j && j < len(opIds) ==> opIds[j] == old(elemId(atv(ASHP, op, j))))
+//@ loop 1 [C04,C16] invariant ids_collected: len(opIds) == (iter == nil ? op.Len() : ipos(iter)) && (iter != nil ==> ilen(iter) == op.Len() && iparent(iter) == op && iter == op.At(ipos(iter))) && (forall j Int :: {opIds[j]} 0 <= j && j < len(opIds) ==> opIds[j] == elemId(op.At(j)))
+//@ [C04,C16] at call dyn.loopFn#1: assert appends_exactly_the_object_ids: len(opIds) == lenv(old(ASHP), op) && (forall j Int :: {opIds[j]} 0 <= j && j < len(opIds) ==> opIds[j] == old(elemId(atv(ASHP, op, j))))
+//@ loop 2 [C04,C16] invariant own_backing_array: arrof(targetIds) != arrof(opIds)
+//@ loop 2 [C04,C16] invariant ids_fixed: len(opIds) == lenv(old(ASHP), op) && (forall j Int :: {opIds[j]} 0 <= j && j < len(opIds) ==> opIds[j] == old(elemId(atv(ASHP, op, j))))
+//@ loop 3 [C04,C16] invariant ids_fixed: len(opIds) == lenv(old(ASHP), op) && (forall j Int :: {opIds[j]} 0 <= j && j < len(opIds) ==> opIds[j] == old(elemId(atv(ASHP, op, j))))
 //@ [C11] requires op != nil && target != nil && db != nil
 //@ [C09] requires unlocked: held == emp
 //@ [C09] ensures unlocked: held == emp
@@ -1050,14 +1099,14 @@ package pub
 //@ func pub.add$1
 //@ params t
 //@ modifies gV0, gOwns
-//@ [C16] at call pub.Database.Owns#1: ghost gOwns = $res0 && $res1 == nil
-//@ [C16] at call pub.Database.Get#1: ghost gV0 = ASHP
-//@ [C16] ensures targets_not_owned_are_left_alone: !gOwns ==> nUpdate == old(nUpdate)
-//@ [C16] ensures owned_target_updated_once: result == nil && gOwns ==> nUpdate == old(nUpdate) + 1
-//@ [C16] ensures at_most_one_update: nUpdate <= old(nUpdate) + 1
-//@ [C16] at call pub.Database.Update#1: assert object_ids_appended_in_order: $arg2 == tp && (streams.IsOrExtendsActivityStreamsOrderedCollection(tp) ? appendedIds(props[tp]["ActivityStreamsOrderedItems"], gV0, opIds) : appendedIds(props[tp]["ActivityStreamsItems"], gV0, opIds))
-//@ loop 1 [C16] invariant appended_so_far: props[tp]["ActivityStreamsOrderedItems"] == oiProp && appendedSoFar(oiProp, gV0, opIds, $ri + 1)
-//@ loop 2 [C16] invariant appended_so_far: props[tp]["ActivityStreamsItems"] == iProp && appendedSoFar(iProp, gV0, opIds, $ri + 1)
+//@ [C04,C16] at call pub.Database.Owns#1: ghost gOwns = $res0 && $res1 == nil
+//@ [C04,C16] at call pub.Database.Get#1: ghost gV0 = ASHP
+//@ [C04,C16] ensures targets_not_owned_are_left_alone: !gOwns ==> nUpdate == old(nUpdate)
+//@ [C04,C16] ensures owned_target_updated_once: result == nil && gOwns ==> nUpdate == old(nUpdate) + 1
+//@ [C04,C16] ensures at_most_one_update: nUpdate <= old(nUpdate) + 1
+//@ [C04,C16] at call pub.Database.Update#1: assert object_ids_appended_in_order: $arg2 == tp && (streams.IsOrExtendsActivityStreamsOrderedCollection(tp) ? appendedIds(props[tp]["ActivityStreamsOrderedItems"], gV0, opIds) : appendedIds(props[tp]["ActivityStreamsItems"], gV0, opIds))
+//@ loop 1 [C04,C16] invariant appended_so_far: props[tp]["ActivityStreamsOrderedItems"] == oiProp && appendedSoFar(oiProp, gV0, opIds, $ri + 1)
+//@ loop 2 [C04,C16] invariant appended_so_far: props[tp]["ActivityStreamsItems"] == iProp && appendedSoFar(iProp, gV0, opIds, $ri + 1)
 //@ [C11] requires db != nil && t != nil
 //@ [C09] requires unlocked: held == emp
 //@ [C09] ensures unlocked: held == emp
@@ -1074,13 +1123,13 @@ package pub
 //@ func pub.remove
 //@ params c, op, target, db
 //@ modifies gV0, gOwns, gR, gSrc, gKept, gWit
-//@ [C16] at call (*net/url.URL).String#1: ghost gWit = gWit[$res0 := ipos(iter)]
-//@ loop 1 [C16] invariant position: iter != nil ==> iter == op.At(ipos(iter)) && iparent(iter) == op && ilen(iter) == op.Len()
-//@ loop 1 [C16] invariant every_object_id_is_named: forall j Int :: {op.At(j)} 0 <= j && j < (iter == nil ? op.Len() : ipos(iter)) ==> named(opIds, op.At(j))
-//@ loop 1 [C16] invariant only_object_ids_are_named: forall s String :: {opIds[s]} has(opIds, s) && opIds[s] ==> 0 <= gWit[s] && gWit[s] < (iter == nil ? op.Len() : ipos(iter)) && ekey(op.At(gWit[s])) == s
-//@ [C16] at call dyn.loopFn#1: assert removes_exactly_the_object_ids: (forall j Int :: {atv(old(ASHP), op, j)} 0 <= j && j < lenv(old(ASHP), op) ==> has(opIds, old(ekey(atv(ASHP, op, j)))) && opIds[old(ekey(atv(ASHP, op, j)))]) && (forall s String, w Int :: {opIds[s], atv(old(ASHP), op, w)} has(opIds, s) && opIds[s] && w == gWit[s] ==> 0 <= w && w < lenv(old(ASHP), op) && old(ekey(atv(ASHP, op, w))) == s)
-//@ loop 2 [C16] invariant names_fixed: (forall j Int :: {atv(old(ASHP), op, j)} 0 <= j && j < lenv(old(ASHP), op) ==> has(opIds, old(ekey(atv(ASHP, op, j)))) && opIds[old(ekey(atv(ASHP, op, j)))]) && (forall s String, w Int :: {opIds[s], atv(old(ASHP), op, w)} has(opIds, s) && opIds[s] && w == gWit[s] ==> 0 <= w && w < lenv(old(ASHP), op) && old(ekey(atv(ASHP, op, w))) == s)
-//@ loop 3 [C16] invariant names_fixed: (forall j Int :: {atv(old(ASHP), op, j)} 0 <= j && j < lenv(old(ASHP), op) ==> has(opIds, old(ekey(atv(ASHP, op, j)))) && opIds[old(ekey(atv(ASHP, op, j)))]) && (forall s String, w Int :: {opIds[s], atv(old(ASHP), op, w)} has(opIds, s) && opIds[s] && w == gWit[s] ==> 0 <= w && w < lenv(old(ASHP), op) && old(ekey(atv(ASHP, op, w))) == s)
+//@ [C04,C16] at call (*net/url.URL).String#1: ghost gWit = gWit[$res0 := ipos(iter)]
+//@ loop 1 [C04,C16] invariant position: iter != nil ==> iter == op.At(ipos(iter)) && iparent(iter) == op && ilen(iter) == op.Len()
+//@ loop 1 [C04,C16] invariant every_object_id_is_named: forall j Int :: {op.At(j)} 0 <= j && j < (iter == nil ? op.Len() : ipos(iter)) ==> named(opIds, op.At(j))
+//@ loop 1 [C04,C16] invariant only_object_ids_are_named: forall s String :: {opIds[s]} has(opIds, s) && opIds[s] ==> 0 <= gWit[s] && gWit[s] < (iter == nil ? op.Len() : ipos(iter)) && ekey(op.At(gWit[s])) == s
+//@ [C04,C16] at call dyn.loopFn#1: assert removes_exactly_the_object_ids: (forall j Int :: {atv(old(ASHP), op, j)} 0 <= j && j < lenv(old(ASHP), op) ==> has(opIds, old(ekey(atv(ASHP, op, j)))) && opIds[old(ekey(atv(ASHP, op, j)))]) && (forall s String, w Int :: {opIds[s], atv(old(ASHP), op, w)} has(opIds, s) && opIds[s] && w == gWit[s] ==> 0 <= w && w < lenv(old(ASHP), op) && old(ekey(atv(ASHP, op, w))) == s)
+//@ loop 2 [C04,C16] invariant names_fixed: (forall j Int :: {atv(old(ASHP), op, j)} 0 <= j && j < lenv(old(ASHP), op) ==> has(opIds, old(ekey(atv(ASHP, op, j)))) && opIds[old(ekey(atv(ASHP, op, j)))]) && (forall s String, w Int :: {opIds[s], atv(old(ASHP), op, w)} has(opIds, s) && opIds[s] && w == gWit[s] ==> 0 <= w && w < lenv(old(ASHP), op) && old(ekey(atv(ASHP, op, w))) == s)
+//@ loop 3 [C04,C16] invariant names_fixed: (forall j Int :: {atv(old(ASHP), op, j)} 0 <= j && j < lenv(old(ASHP), op) ==> has(opIds, old(ekey(atv(ASHP, op, j)))) && opIds[old(ekey(atv(ASHP, op, j)))]) && (forall s String, w Int :: {opIds[s], atv(old(ASHP), op, w)} has(opIds, s) && opIds[s] && w == gWit[s] ==> 0 <= w && w < lenv(old(ASHP), op) && old(ekey(atv(ASHP, op, w))) == s)
 //@ [C11] requires op != nil && target != nil && db != nil
 //@ [C09] requires unlocked: held == emp
 //@ [C09] ensures unlocked: held == emp
@@ -1094,29 +1143,29 @@ package pub
 //@ func pub.remove$1
 //@ params t
 //@ modifies gV0, gOwns, gR, gSrc, gKept
-//@ [C16] at call pub.Database.Owns#1: ghost gOwns = $res0 && $res1 == nil
-//@ [C16] at call pub.Database.Get#1: ghost gV0 = ASHP
-//@ [C16] at call pub.Database.Get#1: ghost gR = 0
-//@ [C16] at call (*net/url.URL).String#*: ghost gSrc = gSrc[i := i + gR]
-//@ [C16] at call (*net/url.URL).String#*: ghost gKept = gKept[i + gR := i]
-//@ [C16] at call Remove#*: ghost gKept = gKept[i + gR := 0 - 1]
-//@ [C16] at call Remove#*: ghost gR = gR + 1
-//@ [C16] ensures targets_not_owned_are_left_alone: !gOwns ==> nUpdate == old(nUpdate)
-//@ [C16] ensures owned_target_updated_once: result == nil && gOwns ==> nUpdate == old(nUpdate) + 1
-//@ [C16] ensures at_most_one_update: nUpdate <= old(nUpdate) + 1
-//@ [C16] at call pub.Database.Update#1: assert exactly_the_named_ids_removed_rest_in_order: $arg2 == tp && (streams.IsOrExtendsActivityStreamsOrderedCollection(tp) ? filteredOut(props[tp]["ActivityStreamsOrderedItems"], gV0, opIds) : filteredOut(props[tp]["ActivityStreamsItems"], gV0, opIds))
-//@ loop 1 [C16] invariant counts: oiProp != nil && 0 <= i && i <= oiProp.Len() && gR >= 0 && oiProp.Len() + gR == lenv(gV0, oiProp)
-//@ loop 1 [C16] invariant kept_prefix: forall j Int :: {oiProp.At(j)} 0 <= j && j < i ==> 0 <= gSrc[j] && gSrc[j] < i + gR && oiProp.At(j) == atv(gV0, oiProp, gSrc[j]) && !named(opIds, oiProp.At(j))
-//@ loop 1 [C16] invariant increasing: forall j Int, k Int :: {gSrc[j], gSrc[k]} 0 <= j && j < k && k < i ==> gSrc[j] < gSrc[k]
-//@ loop 1 [C16] invariant suffix_shifted: forall j Int :: {oiProp.At(j)} i <= j && j < oiProp.Len() ==> oiProp.At(j) == atv(gV0, oiProp, j + gR)
-//@ loop 1 [C16] invariant every_old_accounted: forall k Int :: {gKept[k]} 0 <= k && k < i + gR ==> (gKept[k] >= 0 ==> gKept[k] < i && gSrc[gKept[k]] == k) && (gKept[k] < 0 ==> named(opIds, atv(gV0, oiProp, k)))
-//@ loop 1 [C16] invariant the_targets_items: props[tp]["ActivityStreamsOrderedItems"] == oiProp
-//@ loop 2 [C16] invariant counts: iProp != nil && 0 <= i && i <= iProp.Len() && gR >= 0 && iProp.Len() + gR == lenv(gV0, iProp)
-//@ loop 2 [C16] invariant kept_prefix: forall j Int :: {iProp.At(j)} 0 <= j && j < i ==> 0 <= gSrc[j] && gSrc[j] < i + gR && iProp.At(j) == atv(gV0, iProp, gSrc[j]) && !named(opIds, iProp.At(j))
-//@ loop 2 [C16] invariant increasing: forall j Int, k Int :: {gSrc[j], gSrc[k]} 0 <= j && j < k && k < i ==> gSrc[j] < gSrc[k]
-//@ loop 2 [C16] invariant suffix_shifted: forall j Int :: {iProp.At(j)} i <= j && j < iProp.Len() ==> iProp.At(j) == atv(gV0, iProp, j + gR)
-//@ loop 2 [C16] invariant every_old_accounted: forall k Int :: {gKept[k]} 0 <= k && k < i + gR ==> (gKept[k] >= 0 ==> gKept[k] < i && gSrc[gKept[k]] == k) && (gKept[k] < 0 ==> named(opIds, atv(gV0, iProp, k)))
-//@ loop 2 [C16] invariant the_targets_items: props[tp]["ActivityStreamsItems"] == iProp
+//@ [C04,C16] at call pub.Database.Owns#1: ghost gOwns = $res0 && $res1 == nil
+//@ [C04,C16] at call pub.Database.Get#1: ghost gV0 = ASHP
+//@ [C04,C16] at call pub.Database.Get#1: ghost gR = 0
+//@ [C04,C16] at call (*net/url.URL).String#*: ghost gSrc = gSrc[i := i + gR]
+//@ [C04,C16] at call (*net/url.URL).String#*: ghost gKept = gKept[i + gR := i]
+//@ [C04,C16] at call Remove#*: ghost gKept = gKept[i + gR := 0 - 1]
+//@ [C04,C16] at call Remove#*: ghost gR = gR + 1
+//@ [C04,C16] ensures targets_not_owned_are_left_alone: !gOwns ==> nUpdate == old(nUpdate)
+//@ [C04,C16] ensures owned_target_updated_once: result == nil && gOwns ==> nUpdate == old(nUpdate) + 1
+//@ [C04,C16] ensures at_most_one_update: nUpdate <= old(nUpdate) + 1
+//@ [C04,C16] at call pub.Database.Update#1: assert exactly_the_named_ids_removed_rest_in_order: $arg2 == tp && (streams.IsOrExtendsActivityStreamsOrderedCollection(tp) ? filteredOut(props[tp]["ActivityStreamsOrderedItems"], gV0, opIds) : filteredOut(props[tp]["ActivityStreamsItems"], gV0, opIds))
+//@ loop 1 [C04,C16] invariant counts: oiProp != nil && 0 <= i && i <= oiProp.Len() && gR >= 0 && oiProp.Len() + gR == lenv(gV0, oiProp)
+//@ loop 1 [C04,C16] invariant kept_prefix: forall j Int :: {oiProp.At(j)} 0 <= j && j < i ==> 0 <= gSrc[j] && gSrc[j] < i + gR && oiProp.At(j) == atv(gV0, oiProp, gSrc[j]) && !named(opIds, oiProp.At(j))
+//@ loop 1 [C04,C16] invariant increasing: forall j Int, k Int :: {gSrc[j], gSrc[k]} 0 <= j && j < k && k < i ==> gSrc[j] < gSrc[k]
+//@ loop 1 [C04,C16] invariant suffix_shifted: forall j Int :: {oiProp.At(j)} i <= j && j < oiProp.Len() ==> oiProp.At(j) == atv(gV0, oiProp, j + gR)
+//@ loop 1 [C04,C16] invariant every_old_accounted: forall k Int :: {gKept[k]} 0 <= k && k < i + gR ==> (gKept[k] >= 0 ==> gKept[k] < i && gSrc[gKept[k]] == k) && (gKept[k] < 0 ==> named(opIds, atv(gV0, oiProp, k)))
+//@ loop 1 [C04,C16] invariant the_targets_items: props[tp]["ActivityStreamsOrderedItems"] == oiProp
+//@ loop 2 [C04,C16] invariant counts: iProp != nil && 0 <= i && i <= iProp.Len() && gR >= 0 && iProp.Len() + gR == lenv(gV0, iProp)
+//@ loop 2 [C04,C16] invariant kept_prefix: forall j Int :: {iProp.At(j)} 0 <= j && j < i ==> 0 <= gSrc[j] && gSrc[j] < i + gR && iProp.At(j) == atv(gV0, iProp, gSrc[j]) && !named(opIds, iProp.At(j))
+//@ loop 2 [C04,C16] invariant increasing: forall j Int, k Int :: {gSrc[j], gSrc[k]} 0 <= j && j < k && k < i ==> gSrc[j] < gSrc[k]
+//@ loop 2 [C04,C16] invariant suffix_shifted: forall j Int :: {iProp.At(j)} i <= j && j < iProp.Len() ==> iProp.At(j) == atv(gV0, iProp, j + gR)
+//@ loop 2 [C04,C16] invariant every_old_accounted: forall k Int :: {gKept[k]} 0 <= k && k < i + gR ==> (gKept[k] >= 0 ==> gKept[k] < i && gSrc[gKept[k]] == k) && (gKept[k] < 0 ==> named(opIds, atv(gV0, iProp, k)))
+//@ loop 2 [C04,C16] invariant the_targets_items: props[tp]["ActivityStreamsItems"] == iProp
 //@ [C11] requires db != nil && t != nil
 //@ [C09] requires unlocked: held == emp
 //@ [C09] ensures unlocked: held == emp
